@@ -61,14 +61,25 @@ func forgeEntry(ctx context.Context, s *Scen, rogue int, kind string, next []cid
 // tampered with, at random positions; every fetch completion is serialised in a random
 // order (gates at replicator.after_dequeue per hash); finally the valid heads are
 // announced again honestly.
+//
+// An announcement reaches the replicator by one of two routes:
+//
+//	"sync":     Store.Sync(heads) - per-head check (access controller, claimed hash against
+//	            the content), then Replicator.Load of the heads that passed;
+//	"loadmore": Store.LoadMoreFrom(amount, heads) - the entries are handed to
+//	            Replicator.Load as they are.  Nothing checks them on the way: the replicator
+//	            has to fetch every one of them by the hash it claims, so a copy of a valid
+//	            entry V with another payload or another author is a request for V.
 func runC10(r *Run) error {
 	defer closeEnv()
 	scens := 90
 	if r.Tier == "thorough" {
 		scens = 600
 	}
-	if err := c10Scenario(r, -1); err != nil {
-		return err
+	for _, si := range []int{-1, -2} {
+		if err := c10Scenario(r, si); err != nil {
+			return err
+		}
 	}
 	for si := 0; si < scens; si++ {
 		if err := c10Scenario(r, si); err != nil {
@@ -78,12 +89,32 @@ func runC10(r *Run) error {
 	return nil
 }
 
+// c10Tamper returns a copy of the valid entry e that keeps the hash e claims but not its
+// content: "tampered" has one payload bit flipped, "tampered-author" carries the identity
+// and key of the rogue replica (which is not a writer).
+func c10Tamper(s *Scen, e ipfslog.Entry, rogue int, kind string) ipfslog.Entry {
+	t := e.Copy()
+	if kind == "tampered-author" {
+		rid := s.Reps[rogue].Orbit.Identity()
+		t.SetKey(rid.PublicKey)
+		t.SetIdentity(rid.Filtered())
+		return t
+	}
+	p := append([]byte(nil), e.GetPayload()...)
+	p[len(p)/2] ^= 1
+	t.SetPayload(p)
+	return t
+}
+
 func c10Scenario(r *Run, si int) error {
 	ctx := context.Background()
 	// si < 0: the minimal schedule separating the repaired merge from the pinned one, with
 	// every choice fixed: one valid entry v, one unauthorised entry x, announcement [x, v],
-	// x fetched before v, v announced again
+	// x fetched before v, v announced again.
+	// si == -2: the same for the LoadMoreFrom route: LoadMoreFrom([copy of v with another
+	// payload]), the fetch completes, v announced again
 	forced := si < 0
+	forcedLM := si == -2
 	nw := 1
 	if !forced {
 		nw = 1 + r.Rng.Intn(2)
@@ -187,23 +218,38 @@ func c10Scenario(r *Run, si int) error {
 	type ann struct {
 		heads    []ipfslog.Entry
 		descr    []string
-		tampered bool
+		tampered bool // contains a copy whose claimed hash does not match its content
+		loadMore bool // handed over with LoadMoreFrom instead of Sync
 	}
 	var anns []ann
 	announcedValid := map[string]bool{}
 	usedRejected := false
+	usedTamperedLM := false
+	tamperedLM := map[int]bool{} // valid entries a tampered copy of which went through LoadMoreFrom
 	if forced {
 		v := snaps[0][0]
-		anns = append(anns, ann{heads: []ipfslog.Entry{rejected[0].Copy(), v.Copy()}, descr: []string{"nonwriter", "valid-head"}})
+		if forcedLM {
+			anns = append(anns, ann{heads: []ipfslog.Entry{c10Tamper(s, v, rogue, "tampered")}, descr: []string{"tampered"}, tampered: true, loadMore: true})
+			usedTamperedLM = true
+			tamperedLM[g.num(v.GetHash().String())] = true
+		} else {
+			anns = append(anns, ann{heads: []ipfslog.Entry{rejected[0].Copy(), v.Copy()}, descr: []string{"nonwriter", "valid-head"}})
+		}
 		announcedValid[v.GetHash().String()] = true
 		usedRejected = true
 		nann = 0
 	}
 	for a := 0; a < nann; a++ {
 		var an ann
+		an.loadMore = r.Rng.Intn(5) < 2
 		n := 1 + r.Rng.Intn(4)
 		for k := 0; k < n; k++ {
-			switch c := r.Rng.Intn(10); {
+			c := r.Rng.Intn(10)
+			if an.loadMore && c >= 5 && r.Rng.Intn(4) == 0 {
+				// on this route a tampered copy is not refused: more of them
+				c = 4
+			}
+			switch {
 			case c < 4:
 				e := rejected[r.Rng.Intn(len(rejected))]
 				an.heads = append(an.heads, e.Copy())
@@ -212,13 +258,17 @@ func c10Scenario(r *Run, si int) error {
 			case c < 5:
 				// a valid entry whose content was changed after hashing: claimed hash does not match
 				e := validEntries[r.Rng.Intn(len(validEntries))]
-				t := e.Copy()
-				p := append([]byte(nil), e.GetPayload()...)
-				p[len(p)/2] ^= 1
-				t.SetPayload(p)
-				an.heads = append(an.heads, t)
-				an.descr = append(an.descr, "tampered")
+				kind := "tampered"
+				if r.Rng.Intn(3) == 0 {
+					kind = "tampered-author"
+				}
+				an.heads = append(an.heads, c10Tamper(s, e, rogue, kind))
+				an.descr = append(an.descr, kind)
 				an.tampered = true
+				if an.loadMore {
+					usedTamperedLM = true
+					tamperedLM[g.num(e.GetHash().String())] = true
+				}
 				announcedValid[e.GetHash().String()] = true
 			case c < 8:
 				hs := snaps[r.Rng.Intn(len(snaps))]
@@ -251,8 +301,23 @@ func c10Scenario(r *Run, si int) error {
 		if ai < len(anns) && (len(fr) == 0 || forced || r.Rng.Intn(2) == 0) {
 			an := anns[ai]
 			ai++
-			annDescr = append(annDescr, an.descr)
 			hs := hashesOf(an.heads)
+			if an.loadMore {
+				// LoadMoreFrom returns when the request is done, i.e. not before the gates open
+				annDescr = append(annDescr, append([]string{"route:loadmore"}, an.descr...))
+				g.direct++
+				sim.TheHooks.DirectLoads++
+				go g.store.LoadMoreFrom(ctx, uint(1+r.Rng.Intn(8)), an.heads)
+				// no check on the way: the request consists of the hashes as claimed
+				g.emit(fmt.Sprintf("ELoad %s %s", sim.CoqN(ai), sim.CoqListN(g.nums(hs))))
+				r.Count("c10:announcement-loadmore")
+				for _, d := range an.descr {
+					r.Count("c10:loadmore-head-" + d)
+				}
+				g.quiesce(0, parked, "after LoadMoreFrom")
+				continue
+			}
+			annDescr = append(annDescr, append([]string{"route:sync"}, an.descr...))
 			err := g.store.Sync(ctx, an.heads)
 			if err != nil {
 				// dropped as a whole: no request reaches the replicator
@@ -370,13 +435,27 @@ func c10Scenario(r *Run, si int) error {
 	if forced {
 		kindName = "c10-forced"
 	}
+	if forcedLM {
+		kindName = "c10-forced-loadmore"
+	}
+	if len(missing) > 0 && len(intruders) == 0 && !g.hang {
+		// the valid entries that stay invisible are those a copy of which, with other content,
+		// went through LoadMoreFrom
+		only := true
+		for _, m := range missing {
+			only = only && tamperedLM[m]
+		}
+		if only {
+			sig = "handed-content-used-instead-of-hash"
+		}
+	}
 	descr := map[string]interface{}{"kind": kindName, "sig": sig, "scen": si, "writers": nw, "valid_entries": len(validEntries),
 		"rejected": len(rejected), "announcements": annDescr, "dropped_whole": dropped, "fetch_order": order,
 		"missing": missing, "rejected_visible": intruders, "state": fmt.Sprintf("%+v", st), "script": g.script}
 	if g.hang {
 		descr["hang"] = g.hangAt
 	}
-	r.AddCase(g.caseTerm(hashesOf(final), never, ob), descr, usedRejected)
+	r.AddCase(g.caseTerm(hashesOf(final), never, ob), descr, usedRejected || usedTamperedLM)
 	r.Count("c10:scenarios")
 	if sig != "repl-ok" {
 		r.Count("c10:sig=" + sig)
